@@ -455,3 +455,143 @@ func init() {
 			return emitSimple(c, "SYM.model", "generic.GenericSymbolState#longest-registered-symbol", c.Pos(c.MustFunc("tokenizers/generic", "", "NewGenericSymbolState").Pos()), c.symxRun(), "tokens agree with the longest-match model")
 		}})
 }
+
+// ---- MAP.dispatchmodel: the same list model through a tokenizer's SetCharacterState / GetCharacterState ----
+
+var mapdMemo *simpleVerdict
+var mapdMu sync.Mutex
+
+func (c *Ctx) mapdRun() *simpleVerdict {
+	mapdMu.Lock()
+	defer mapdMu.Unlock()
+	if mapdMemo != nil {
+		return mapdMemo
+	}
+	v := &simpleVerdict{}
+	mapdMemo = v
+	h := c.newTkHarness("generic")
+	if h.fault != "" {
+		v.undec = h.fault
+		return v
+	}
+	states := map[string]mv{"none": mNil}
+	for _, n := range []string{"WordState", "SymbolState", "NumberState"} {
+		s, out := h.call(n)
+		if out.kind != "ok" {
+			v.undec = n + ": " + out.why
+			return v
+		}
+		states[n] = s
+	}
+	nameOf := func(s mv) string {
+		for n, st := range states {
+			if eq, known := h.m.equal(s, st); known && eq {
+				return n
+			}
+		}
+		return "other"
+	}
+	ends := []int64{'a', 0xFF, 0x100, 0x436, 0xFFFE}
+	var ops []mapOp
+	for _, r := range []string{"WordState", "SymbolState", "none"} {
+		for i, s := range ends {
+			for _, e := range ends[i:] {
+				ops = append(ops, mapOp{"add", s, e, r})
+			}
+		}
+	}
+	ops = append(ops, mapOp{kind: "clear"})
+	probes := []int64{'a' - 1, 'a', 'b', 0xFE, 0xFF, 0x100, 0x101, 0x435, 0x436, 0x437, 0xFFFD, 0xFFFE}
+	for i, a := range ops {
+		for j, b := range ops {
+			if (i+j)%2 == 1 {
+				continue
+			}
+			h.m.steps = 0
+			if _, out := h.call("ClearCharacterStates"); out.kind != "ok" {
+				v.undec = "ClearCharacterStates: " + out.why
+				return v
+			}
+			seq := []mapOp{a, b}
+			var hist []string
+			okRun := true
+			for _, o := range seq {
+				var out mOutcome
+				if o.kind == "clear" {
+					hist = append(hist, "ClearCharacterStates()")
+					_, out = h.call("ClearCharacterStates")
+				} else {
+					hist = append(hist, fmt.Sprintf("SetCharacterState(%#x,%#x,%s)", o.start, o.end, o.ref))
+					_, out = h.call("SetCharacterState", o.start, o.end, states[o.ref])
+				}
+				if out.kind == "panic" {
+					v.bad = strings.Join(hist, "; ") + " panics: " + out.why
+					okRun = false
+					break
+				}
+				if out.kind != "ok" {
+					v.undec = strings.Join(hist, "; ") + ": " + out.why
+					okRun = false
+					break
+				}
+			}
+			if !okRun {
+				continue
+			}
+			v.runs++
+			for _, p := range probes {
+				r, out := h.call("GetCharacterState", p)
+				if out.kind != "ok" {
+					if out.kind == "panic" {
+						v.bad = fmt.Sprintf("after %s, GetCharacterState(%#x) panics: %s", strings.Join(hist, "; "), p, out.why)
+					} else {
+						v.undec = fmt.Sprintf("GetCharacterState: %s", out.why)
+					}
+					continue
+				}
+				var model []mapOp
+				for _, o := range seq {
+					oo := o
+					if oo.ref == "none" {
+						oo.ref = ""
+					}
+					model = append(model, oo)
+				}
+				want := mapModelLookup(model, p)
+				if want == "" {
+					want = "none"
+				}
+				if got := nameOf(r); got != want && v.bad == "" {
+					v.bad = fmt.Sprintf("generic tokenizer after %s: the character %#x is handed to %s; the latest covering registration says %s", strings.Join(hist, "; "), p, got, want)
+				}
+			}
+		}
+	}
+	// a disabled range is really disabled, a non-Latin range reaches its state: seen in the token stream
+	h2 := c.newTkHarness("generic")
+	h2.setOptions(0)
+	ws, _ := h2.call("WordState")
+	if _, out := h2.call("SetCharacterState", int64(0x400), int64(0x4FF), mNil); out.kind == "ok" {
+		r := h2.tokenize("жa")
+		if r.kind == "ok" && !(len(r.toks) >= 1 && r.toks[0].typ == "Unknown" && r.toks[0].val == "ж") && v.bad == "" {
+			v.bad = fmt.Sprintf("generic tokenizer with the range 0x400-0x4FF disabled tokenizes \"жa\" as [%s]: the disabled range still reaches a state", renderToks(r.toks))
+		}
+		v.runs++
+	}
+	if _, out := h2.call("SetCharacterState", int64(0x400), int64(0x4FF), ws); out.kind == "ok" {
+		r := h2.tokenize("жa")
+		if r.kind == "ok" && !(len(r.toks) >= 1 && r.toks[0].typ == "Word" && r.toks[0].val == "жa") && v.bad == "" {
+			v.bad = fmt.Sprintf("generic tokenizer with the range 0x400-0x4FF given to the word state tokenizes \"жa\" as [%s]", renderToks(r.toks))
+		}
+		v.runs++
+	}
+	return v
+}
+
+func init() {
+	register(&Rule{ID: "MAP.dispatchmodel", Floor: 1,
+		Doc: "the same list model through a tokenizer: ClearCharacterStates / SetCharacterState with ranges below, above and across U+0100 and states {word, symbol, none}, probed with GetCharacterState; a disabled non-Latin range yields Unknown tokens and a re-enabled one reaches its state",
+		Run: func(c *Ctx) []*Obligation {
+			return emitSimple(c, "MAP.dispatchmodel", "tokenizers.AbstractTokenizer#character-dispatch", c.Pos(c.MustFunc("tokenizers/generic", "", "NewGenericTokenizer").Pos()), c.mapdRun(), "dispatch agrees with the list model")
+		}})
+}
